@@ -273,6 +273,154 @@ example : noImportOps (callsOf lateFinisher) = true := by decide
 example : opsOf 2 (callsOf (lateFinisher.take 23)) = execOps [⟨[], [.line 7], []⟩]
     ∧ raisedBy 2 T.init (callsOf (lateFinisher.take 23)) = false := by decide
 
+/-! ### Stuck inside a tracer call: the watchdog's `stop()` never waits for a test thread -/
+
+/-- **`stop()` never waits** (the code, `LockMode.none`): in every state — whoever is inside a callback,
+for however long — every call of every thread is enabled; in particular the `stop()` of the watchdog is a
+single step that ends with `current = None`, touches no thread-local state and leaves every thread that
+is inside a callback where it is. -/
+theorem stop_never_waits (s : F) (t : Tid) :
+    (∀ op, fenabled .none s t op = true) ∧
+    (fstep .none s t (.plain .stop)).1.tr.current = none ∧
+    (∀ u, (fstep .none s t (.plain .stop)).1.tr.loc u = s.tr.loc u) ∧
+    (fstep .none s t (.plain .stop)).1.inside = s.inside ∧
+    (fstep .none s t (.plain .stop)).2 = false :=
+  ⟨fun _ => rfl, rfl, fun _ => rfl, rfl, rfl⟩
+
+/-- Hence, without a lock, **every** fine-grained schedule runs to its end: nobody ever waits for a
+thread that is stuck inside a tracer call. -/
+theorem nolock_every_schedule_runs (s : F) (es : List FEv) : (frun .none s es).isSome = true := by
+  induction es generalizing s with
+  | nil => rfl
+  | cons e es ih => simp only [frun, fenabled, if_true]; exact ih _
+
+/-- **A non-terminating test case that is stuck inside a tracer call is reported as a timeout**: thread
+`u` passed the guard of a callback and never comes back; the watchdog (any other thread `t`) calls
+`stop()` — enabled, one step —, after which `u` is not current (it dies at its next guarded call, should
+it ever return), `u`'s trace is what it was, and `execute` returns a fresh timeout result. -/
+theorem stuck_in_callback_reports_timeout (s : F) (t u : Tid) (q : Outcome) (_hu : s.inside u = true) :
+    fenabled .none s t (.plain .stop) = true ∧
+    (fstep .none s t (.plain .stop)).1.tr.current ≠ some u ∧
+    (fstep .none s t (.plain .stop)).1.tr.loc u = s.tr.loc u ∧
+    executeResult true q = .timeout :=
+  ⟨rfl, by simp [fstep, step], rfl, rfl⟩
+
+/-- Passing the guard of a callback changes nothing in the tracer (under either discipline): a thread
+that is stuck inside a tracer call for ever is invisible to every other thread. -/
+theorem callback_guard_changes_nothing (m : LockMode) (s : F) (t : Tid) :
+    (fstep m s t .cbBegin).1.tr = s.tr := by
+  simp only [fstep]
+  split
+  · rfl
+  · split <;> rfl
+
+/-- Guard and write back to back are the atomic callback of `step` (state and raised flag): the
+schedule-level theorems above speak about callbacks that are not interrupted … -/
+theorem split_callback_eq_atomic (m : LockMode) (s : F) (t : Tid) (c : Cb) (hi : s.inside t = false) :
+    (fstep m (fstep m s t .cbBegin).1 t (.cbEnd c)).1.tr = (step s.tr t (.cb c)).1 ∧
+    (fstep m s t .cbBegin).2 = (step s.tr t (.cb c)).2 := by
+  by_cases hen : (s.tr.loc t).enabled = false
+  · simp [fstep, step, hen, hi]
+  · by_cases hc : s.tr.current ≠ some t
+    · simp [fstep, step, hen, hc, hi]
+    · simp [fstep, step, hen, hc]
+
+/-- … and the write of an interrupted one, whenever it happens, goes to the caller's own thread-local
+trace only: no other thread's flag or trace, not `current`, not the import trace.  (So a callback that
+completes long after its execution was abandoned — the comparison finally returned in the middle of a
+later test case — adds nothing to anybody else.) -/
+theorem late_callback_write_is_own_thread_only (m : LockMode) (s : F) (t u : Tid) (c : Cb) (h : u ≠ t) :
+    (fstep m s t (.cbEnd c)).1.tr.loc u = s.tr.loc u ∧
+    (fstep m s t (.cbEnd c)).1.tr.current = s.tr.current ∧
+    (fstep m s t (.cbEnd c)).1.tr.imp = s.tr.imp := by
+  simp only [fstep]
+  split
+  · simp [T.setLoc, h]
+  · exact ⟨rfl, rfl, rfl⟩
+
+/-- Invariant of the counterexample: `u` holds the update lock and nobody else is inside a callback. -/
+def HeldBy (s : F) (u : Tid) : Prop := s.owner = some u ∧ ∀ v, v ≠ u → s.inside v = false
+
+theorem heldBy_step (s : F) (u : Tid) (e : FEv) (h : HeldBy s u) (hne : e.tid ≠ u)
+    (hen : fenabled .updateLock s e.tid e.op = true) :
+    HeldBy (fstep .updateLock s e.tid e.op).1 u ∧ e.op ≠ .plain .stop := by
+  obtain ⟨ho, hin⟩ := h
+  have hfree : lockFreeFor s e.tid = false := by
+    simp [lockFreeFor, ho]; exact fun h' => hne h'.symm
+  cases hop : e.op with
+  | plain op =>
+    refine ⟨⟨ho, hin⟩, fun hs => ?_⟩
+    rw [hop] at hen
+    cases hs
+    simp [fenabled, hfree] at hen
+  | cbBegin =>
+    rw [hop] at hen
+    simp only [fenabled, hfree, Bool.or_false, Bool.not_eq_eq_eq_not, Bool.not_true] at hen
+    refine ⟨?_, by simp⟩
+    simp only [fstep, hen, if_true]
+    exact ⟨ho, hin⟩
+  | cbEnd c =>
+    refine ⟨?_, by simp⟩
+    simp only [fstep, hin e.tid hne, Bool.false_eq_true, if_false]
+    exact ⟨ho, hin⟩
+
+/-- With the update lock: while `u` sits inside a callback (it holds the lock and takes no step), no
+schedule of the other threads that contains a `stop()` can happen — the watchdog waits for ever, for
+every behaviour of everybody else. -/
+theorem update_lock_blocks_stop (s : F) (u : Tid) (es : List FEv) (h : HeldBy s u)
+    (hne : ∀ e ∈ es, e.tid ≠ u) (hstop : ∃ e ∈ es, e.op = .plain .stop) :
+    frun .updateLock s es = none := by
+  induction es generalizing s with
+  | nil => obtain ⟨e, he, _⟩ := hstop; cases he
+  | cons e es ih =>
+    simp only [frun]
+    split
+    · rename_i hen
+      obtain ⟨h', hns⟩ := heldBy_step s u e h (hne e (List.mem_cons_self ..)) hen
+      refine ih _ h' (fun e' he' => hne e' (List.mem_cons_of_mem _ he')) ?_
+      obtain ⟨e', he', hs⟩ := hstop
+      rcases List.mem_cons.mp he' with rfl | he''
+      · exact absurd hs hns
+      · exact ⟨e', he'', hs⟩
+    · rfl
+
+/-- Test thread 1 enters the tracer and is stuck inside the callback of a branch condition (`if x in
+<endless generator>`): it passed the guard and never writes. -/
+def stuckInside : List FEv :=
+  [⟨1, .plain .initTrace⟩, ⟨1, .plain .enter⟩, ⟨1, .plain .check⟩, ⟨1, .plain .disable⟩,
+   ⟨1, .plain .enable⟩, ⟨1, .plain (.cb (.line 5))⟩, ⟨1, .cbBegin⟩]
+
+/-- **A `stop()` that needs a lock held by the stuck thread breaks the property**: after `stuckInside`
+thread 1 holds the update lock; the watchdog's `stop()` is not enabled, and no continuation whatsoever in
+which thread 1 stays stuck contains a completed `stop()` — `execute` never reports the timeout.  Without
+the lock (the code) the same history goes on: `stop()`, a fresh timeout, and the next test case (thread 2)
+runs and delivers its own result. -/
+theorem update_lock_cex :
+    (∃ s, frun .updateLock (F.init T.init) stuckInside = some s ∧ HeldBy s 1 ∧
+      fenabled .updateLock s 0 (.plain .stop) = false ∧
+      ∀ es, (∀ e ∈ es, e.tid ≠ 1) → (∃ e ∈ es, e.op = .plain .stop) → frun .updateLock s es = none) ∧
+    (∃ s, frun .none (F.init T.init)
+        (stuckInside ++ [⟨0, .plain .stop⟩, ⟨2, .plain .initTrace⟩, ⟨2, .plain .enter⟩,
+          ⟨2, .plain (.cb (.line 7))⟩, ⟨2, .plain .exit⟩]) = some s ∧
+      (s.tr.loc 2).trace = ⟨[], [7], [], [], []⟩ ∧ s.inside 1 = true ∧
+      (s.tr.loc 1).trace = ⟨[], [5], [], [], []⟩) := by
+  refine ⟨?_, ?_⟩
+  · refine ⟨(fstep .updateLock ((stuckInside.take 6).foldl
+        (fun s e => (fstep .updateLock s e.tid e.op).1) (F.init T.init)) 1 .cbBegin).1, ?_, ?_, ?_, ?_⟩
+    · rfl
+    · refine ⟨rfl, fun v hv => ?_⟩
+      simp [stuckInside, fstep, step, F.init, T.init, T.setLoc, Local.fresh, hv]
+    · rfl
+    · intro es hne hstop
+      exact update_lock_blocks_stop _ 1 es
+        ⟨rfl, fun v hv => by simp [stuckInside, fstep, step, F.init, T.init, T.setLoc, Local.fresh, hv]⟩
+        hne hstop
+  · refine ⟨_, rfl, ?_, ?_, ?_⟩ <;> decide
+
+/-- The hypotheses of `update_lock_blocks_stop` / `stuck_in_callback_reports_timeout` on a concrete state. -/
+example : ∃ s, frun .none (F.init T.init) stuckInside = some s ∧ s.inside 1 = true ∧
+    fenabled .none s 0 (.plain .stop) = true := ⟨_, rfl, by decide, rfl⟩
+
 /-! ### What the code does beyond the property -/
 
 /-- The `__exit__` of *any* thread (in particular of an abandoned thread that finally dies) resets
